@@ -7,7 +7,7 @@ MIRRORS2 = os.path.join(engine.HARNESS, 'target', 'debug', 'mirrors2')
 class Check:
     prop = 'C20'
     theorems = ['C20_mirror_tables_agree', 'scriptResponders_length', 'scriptResponders_get', 'scriptKeys_get', 'script_find',
-                'script_call', 'C20_provided_over_mock_eq_struct']
+                'script_call', 'C20_provided_over_mock_eq_struct', 'C20_mirror_names_agree']
 
     def rule(self):
         return ("translator: for each of the mirrored traits in src/mock/*.rs the (method, required|provided) table is "
